@@ -18,7 +18,7 @@ def _interleave(*lists):
 
 class C17(Prop):
     id = 'C17'
-    level = 'exploration'
+    level = 'other'
     technique = ('run-time contract on the real oracle: numeric KKT certificate against an independently assembled constraint matrix, '
                  'plus an independent Lagrangian-dual solver of the same convex programme (bounded)')
     explanation = ('Bounded tier only (labelled bounded, never counted as proved). RegionGraph(convex=True, iters=N, convergence=tol, damping=d)'
@@ -51,9 +51,6 @@ class C17(Prop):
                    'set iteration order inside RegionGraph (minimal edge choice) depends on PYTHONHASHSEED; every choice must satisfy the clauses']
     quick_budget_s = 80
     thorough_budget_s = 560
-
-    def deductive(self, tier):
-        return []
 
     # ------------------------------------------------------------------ cases
     def cases(self, tier, seed):
